@@ -373,6 +373,26 @@ func c18Sizes(c *Ctx) {
 		a, b := word(ef), word(sf)
 		ok := a != nil && b != nil && a.Key() == keyShift(b, 1)
 		c.R.check(ok, rule, "Varfloat64Size/same-transformed-word", shortFn(sf), c.fpos(sf), "the size function recomputes exactly the transformed word the encoder emits", fmt.Sprintf("encoder: %v; size: %v", a, b))
+		// … on every path: no shortcut answers from anything else (a table indexed by int(v) is wrong for fractional v)
+		if b != nil {
+			sps, _ := exec(c, sf, nil, 1)
+			okAll := len(sps) > 0
+			foundP := ""
+			for _, p := range sps {
+				uses := false
+				p.RetT[0].walk(func(x *Term) bool {
+					if x.Key() == b.Key() {
+						uses = true
+					}
+					return true
+				})
+				if !uses {
+					okAll = false
+					foundP = "path [" + p.String() + "] returns " + p.RetT[0].Key()
+				}
+			}
+			c.R.check(okAll, rule, "Varfloat64Size/every-path-from-the-word", shortFn(sf), c.fpos(sf), "every path returns a table entry selected by the transformed word", firstNonEmpty(foundP, fmt.Sprintf("%d path(s)", len(sps))))
+		}
 		// index direction: MSB-first groups ↔ trailing zeros
 		usesTZ := false
 		tc := newTermCtx(c.P)
